@@ -2,6 +2,7 @@
 C10 — helper lemmas for Props.lean (core Lean only).
 -/
 import Verif.C10.Model
+import Verif.C10.SliceLemmas
 
 namespace Verif.C10.L
 open Verif.Py Verif.C10
@@ -1054,6 +1055,110 @@ theorem process_content (s s' : Suite) (b : Int) (g : Bool) (aff : List Nat) (pr
       | some t =>
         simp only [Option.map_some, Option.getD_some]
         exact ⟨abs_sync _, rfl⟩
+
+
+/-! ### slices with any start/stop/step -/
+
+theorem iterSlice_eq (t : T) (sl : Slice) (h : Aligned t) : iterSlice t sl = pyGetSlice (abs t) sl := by
+  unfold iterSlice pyGetSlice getSlice
+  rw [abs_length h]
+  cases hidx : sliceIndices sl t.rows.length with
+  | none => rfl
+  | some v =>
+    obtain ⟨a, b, st⟩ := v
+    obtain ⟨hst0, hpos, hneg⟩ := sliceIndices_bounds hidx
+    simp only
+    rw [enumRows_eq t h]
+    congr 1
+    have hlen := abs_length h
+    exact Slice.filter_positions_eq (abs t) a b st hst0
+      (fun hs => by have := hpos hs; rw [hlen]; omega)
+      (fun hs => by have := hneg hs; rw [hlen]; omega)
+
+/-! ### extended slice assignment is Python's -/
+
+theorem setExt_untouched_ne {α} (xs : List α) (idx : List Int) (vals : List α) (j : Nat)
+    (h : j ∉ idx.map Int.toNat) : (setExt xs idx vals)[j]? = xs[j]? := by
+  induction idx generalizing xs vals with
+  | nil => simp [setExt]
+  | cons i is ih =>
+    cases vals with
+    | nil => simp [setExt]
+    | cons v vs =>
+      simp only [List.map_cons, List.mem_cons, not_or] at h
+      simp only [setExt]
+      rw [ih _ _ h.2, List.getElem?_set]
+      have : i.toNat ≠ j := fun hh => h.1 hh.symm
+      simp [this]
+
+theorem setExt_get {α} (xs : List α) (idx : List Int) (vals : List α) (hlen : idx.length = vals.length)
+    (hnd : (idx.map Int.toNat).Nodup) (hb : ∀ x ∈ idx, x.toNat < xs.length) :
+    ∀ k (hk : k < idx.length), (setExt xs idx vals)[(idx[k]).toNat]? = vals[k]? := by
+  induction idx generalizing xs vals with
+  | nil => intro k hk; simp at hk
+  | cons i is ih =>
+    cases vals with
+    | nil => simp at hlen
+    | cons v vs =>
+      simp only [List.map_cons, List.nodup_cons] at hnd
+      intro k hk
+      simp only [setExt]
+      cases k with
+      | zero =>
+        simp only [List.getElem_cons_zero, List.getElem?_cons_zero]
+        rw [setExt_untouched_ne _ _ _ _ hnd.1, List.getElem?_set]
+        have := hb i (by simp)
+        simp [this]
+      | succ k =>
+        simp only [List.getElem_cons_succ, List.getElem?_cons_succ]
+        exact ih (xs.set i.toNat v) vs (by simpa using hlen) hnd.2
+          (fun x hx => by rw [List.length_set]; exact hb x (by simp [hx])) k (by simpa using hk)
+
+/-- the positions of `range(a, b, st)` for adjusted indices are distinct and inside the list -/
+theorem rangeList_positions (n : Nat) (a b st : Int) (hst : st ≠ 0)
+    (hpos : 0 < st → 0 ≤ a ∧ b ≤ n) (hneg : st < 0 → -1 ≤ b ∧ a ≤ (n : Int) - 1) :
+    ((rangeList a b st).map Int.toNat).Nodup ∧ ∀ x ∈ rangeList a b st, 0 ≤ x ∧ x.toNat < n := by
+  have hnn : ∀ x ∈ rangeList a b st, 0 ≤ x ∧ x < n := by
+    intro x hx
+    rcases Int.lt_or_gt_of_ne hst with h | h
+    · have := Slice.mem_rangeList_neg h hx; have := hneg h; omega
+    · have := Slice.mem_rangeList_pos h hx; have := hpos h; omega
+  refine ⟨?_, fun x hx => by have := hnn x hx; omega⟩
+  unfold List.Nodup
+  rw [List.pairwise_map]
+  rcases Int.lt_or_gt_of_ne hst with h | h
+  · exact List.Pairwise.imp_of_mem (fun {x y} hx hy hxy => by
+      have := (hnn x hx).1; have := (hnn y hy).1; omega) (Slice.rangeList_desc h)
+  · exact List.Pairwise.imp_of_mem (fun {x y} hx hy hxy => by
+      have := (hnn x hx).1; have := (hnn y hy).1; omega) (Slice.rangeList_asc h)
+
+theorem pySetSlice_extended {α} (xs : List α) (sl : Slice) (vals : List α) (a b st : Int)
+    (hidx : sliceIndices sl xs.length = some (a, b, st)) (hst : st ≠ 1) :
+    if vals.length = (rangeList a b st).length then
+      ∃ ys, pySetSlice xs sl vals = .ok ys ∧ ys.length = xs.length
+        ∧ (∀ k (hk : k < (rangeList a b st).length), ys[((rangeList a b st)[k]).toNat]? = vals[k]?)
+        ∧ (∀ j : Nat, (j : Int) ∉ rangeList a b st → ys[j]? = xs[j]?)
+    else pySetSlice xs sl vals = .error .valueError := by
+  obtain ⟨hst0, hpos, hneg⟩ := sliceIndices_bounds hidx
+  obtain ⟨hnd, hb⟩ := rangeList_positions xs.length a b st hst0
+    (fun hs => by have := hpos hs; omega) (fun hs => by have := hneg hs; omega)
+  unfold pySetSlice
+  rw [hidx]
+  simp only [pySetIdx, if_neg hst]
+  split
+  · rename_i hl
+    rw [if_pos hl.symm]
+    refine ⟨_, rfl, setExt_length _ _ _, setExt_get xs _ vals hl.symm hnd (fun x hx => (hb x hx).2), ?_⟩
+    intro j hj
+    apply setExt_untouched_ne
+    intro hm
+    simp only [List.mem_map] at hm
+    obtain ⟨x, hx, hxj⟩ := hm
+    have := (hb x hx).1
+    have : x = (j : Int) := by omega
+    exact hj (this ▸ hx)
+  · rename_i hl
+    rw [if_neg (fun h => hl h.symm)]
 
 
 end L
